@@ -61,6 +61,24 @@ class Raised(RaisedInModel):
         self.name, self.node, self.msg = name, node, msg
 
 
+class WeakRef(Model):
+    """weakref.ref(obj): calling it gives the object (the fold keeps every object alive); copy and deepcopy treat it as ATOMIC, as the
+    copy module does: a deep copy of the holder still refers to the ORIGINAL referent"""
+    kinds = ("ReferenceType", "ref")
+
+    def __init__(self, referent):
+        self.referent = referent
+
+    def __call__(self):
+        return self.referent
+
+    def __eq__(self, o):
+        return isinstance(o, WeakRef) and o.referent is self.referent
+
+    def __hash__(self):
+        return id(self.referent)
+
+
 class _Suppress:
     """contextlib.suppress(*classes) / contextlib.nullcontext(value)"""
 
@@ -303,18 +321,45 @@ class ModelEval(Evaluator):
     RDUNDER = {ast.Add: "__radd__", ast.Sub: "__rsub__", ast.Mult: "__rmul__", ast.Div: "__rtruediv__"}
     CMPDUNDER = {ast.Lt: "__lt__", ast.LtE: "__le__", ast.Gt: "__gt__", ast.GtE: "__ge__", ast.Eq: "__eq__", ast.NotEq: "__ne__"}
 
+    @staticmethod
+    def _not_implemented(r):
+        return isinstance(r, Marker) and r.kind == "builtin" and bool(r.data) and r.data[0] == "NotImplemented"
+
     def binop(self, node, op, a, b):
+        # the binary-operator protocol of the data model: a.__op__(b); when that is missing or answers NotImplemented, b.__rop__(a)
         if isinstance(a, PyObj):
             m = self.tree.method(a._cls, self.DUNDER.get(type(op), "?"))
             if m is not None:
-                return self.invoke(m, [a, b], {}, node)
+                r = self.invoke(m, [a, b], {}, node)
+                if not self._not_implemented(r):
+                    return r
+            if isinstance(b, PyObj) and b._cls is not a._cls:
+                m = self.tree.method(b._cls, self.RDUNDER.get(type(op), "?"))
+                if m is not None:
+                    r = self.invoke(m, [b, a], {}, node)
+                    if not self._not_implemented(r):
+                        return r
+            raise Raised("TypeError", node, "unsupported operand types")
         if isinstance(b, PyObj) and not isinstance(a, (PyObj, Model)):
             m = self.tree.method(b._cls, self.RDUNDER.get(type(op), "?"))
             if m is not None:
-                return self.invoke(m, [b, a], {}, node)
+                r = self.invoke(m, [b, a], {}, node)
+                if not self._not_implemented(r):
+                    return r
         if isinstance(a, PyObj) or isinstance(b, PyObj):
             raise Raised("TypeError", node, "unsupported operand types")
         return super().binop(node, op, a, b)
+
+    def aug_op(self, node, op, cur, v):
+        """the value `x` is bound to after `x op= v` (data model: x.__iop__(v), else x op v)"""
+        name = self.IDUNDER.get(type(op))
+        if name is not None and isinstance(cur, PyObj):
+            m = self.tree.method(cur._cls, name)
+            if m is not None:
+                res = self.invoke(m, [cur, v], {}, node)
+                if not self._not_implemented(res):
+                    return res
+        return self.binop(node, op, cur, v)
 
     UDUNDER = {ast.USub: "__neg__", ast.UAdd: "__pos__", ast.Invert: "__invert__"}
 
@@ -470,6 +515,8 @@ class ModelEval(Evaluator):
                     for x in items:
                         acc = self.call(node, args[0], [acc, x], {})
                     return acc
+                if h is None and func.data[0] == "weakref.ref" and len(args) >= 1:
+                    return WeakRef(args[0])
                 if h is None and func.data[0] == "contextlib.suppress":
                     names = []
                     for a_ in args:
